@@ -263,9 +263,10 @@ def run_shard(prop, tier, seed, shard, nshards, out):
         for k, v in gen.WARM_STATS.items():
             if v:
                 ctx.counters["trees_" + k] += v
-        for k, v in getattr(gen, "NESTED_STATS", {}).items():
-            if v:
-                ctx.counters[k] += v
+        for stats in ("NESTED_STATS", "RENAMED_STATS"):
+            for k, v in getattr(gen, stats, {}).items():
+                if v:
+                    ctx.counters[k] += v
     d = ctx.dump()
     d["status"] = status
     if cov is not None:
